@@ -35,6 +35,8 @@ def families(tier):
         {'name': 'threads-bf', 'params': {'P': 3, 'prefix': False}, 'weight': 3},
         {'name': 'threads-bf', 'params': {'P': 2, 'prefix': True}, 'weight': 3},
         {'name': 'threads-reuse', 'params': {'P': 2, 'prefix': True}, 'weight': 3},
+        {'name': 'threads-bf', 'params': {'P': 2, 'prefix': True, 'callers': True}, 'weight': 3},
+        {'name': 'threads-sb', 'params': {'P': 2, 'prefix': True, 'callers': True}, 'weight': 3},
     ]
     if tier == 'quick':
         return q
@@ -168,11 +170,19 @@ def threads(eng, fam, P):
                 raise PathAbort()
         info = {}
 
+        def caller(b, i, log):
+            # a caching caller that catches the rejection of the duplicate
+            if not P.get('callers'):
+                return op(b, i, log)
+            return b.subbuild('caller%d' % i, lambda b2: (caller_runs.append(i), op(b2, i, log))[1])
+
+        caller_runs = []
+
         def root(b):
             s = Sched(eng, P['P'])
             hook = install(w, s)
             res = {}
-            ts = [s.spawn(lambda i=i: res.__setitem__(i, op(b, i, calls)), 'w%d' % i) for i in range(2)]
+            ts = [s.spawn(lambda i=i: res.__setitem__(i, caller(b, i, calls)), 'w%d' % i) for i in range(2)]
             try:
                 s.run_all()
             finally:
@@ -209,6 +219,15 @@ def threads(eng, fam, P):
             if calls:
                 n = w.fs.snapshot(w.root).get(path)
                 eng.check('C08.winner-output-content', L.eq(n[2], contents[calls[0]]), sig)
+        if P.get('callers') and rej:
+            # the caller that caught the rejection is never served from the cache: alone in the next build it is
+            # re-executed and its call succeeds
+            loser = [i for i in range(2) if v[i] == 'exc:RuntimeError'][0]
+            del caller_runs[:]
+            v3 = FileBuilder.build(w.cache, 'n', lambda b: caller(b, loser, []))
+            eng.check('C08.rejected-attempt-served-from-cache', loser in caller_runs and isinstance(v3, list), sig + ('caller%d' % loser,),
+                      info={'caller_runs': list(caller_runs), 'value': repr(v3), 'schedule': info.get('trace')})
+            eng.witness('catcher-reexecuted')
         # the record of the winner is valid: an unchanged sequential build re-executes nothing
         calls2 = []
         v2 = FileBuilder.build(w.cache, 'n', lambda b: op(b, 0, calls2))
